@@ -107,6 +107,11 @@ class CallMixin:
             binds[p] = a
         for k, v in kw.items():
             binds[k] = v
+        va = func.node.args.vararg
+        if va is not None:
+            # *rest takes the surplus positional arguments, as a tuple of known length
+            binds[va.arg] = ("tuple", tuple(args[len(params):]))
+            args = list(args[:len(params)])
         missing = [p for p in params if p not in binds and p not in func.defaults]
         if missing or len(args) > len(params):
             self.emit(st, fx, "BADCALL", node, func=func.qual, missing=missing, nargs=len(args))
